@@ -132,6 +132,7 @@ def dihedral_wrapper_spec(u, selfobj, xy, reduce=True, *args, **kw):
                             lambda r, b, i, j, a=a: IMPL(zint(r) == a * zint(Bn) + zint(b), sqdist(o, r, i, j) == sqdist(src, b, i, j)),
                             pats=lambda r, b, i, j: [z3.MultiPattern(o.at(r, i, 0), o.at(r, j, 0), src.at(b, i, 0))]))
     u.requires(u.forall((Bn, N, 2), lambda b, i, c: o.at(b, i, c) == xs((b, i, c))))
+    u._dihedral_contract = (o, src, Bn)     # lets a caller's unit instantiate the contract at its own (row, nodes)
     return o
 
 
@@ -148,7 +149,14 @@ def _(u):
         c = u.idx((2,), "c")
         same_tensor(u, "aug.locs.shape", out["locs"], (K * B, N, 2), lambda r, k, cc: out["locs"].at(r, k, cc))
         u.prove("aug.first-copy-is-original", out["locs"].at(b, i, c) == td["locs"].at(b, i, c))
+        o_, src_, Bn_ = u._dihedral_contract
+        # two small links (each a one-step argument), then every copy follows from one ground instance of the contract
+        u.prove("aug.input-of-the-augmentation.row-b-is-instance-b", AND(zint(Bn_) == B, *[src_.at(b, n_, c_) == td["locs"].at(b, n_, c_) for n_ in (i, j) for c_ in (0, 1)]), assume=True)
         for a in range(K):
+            u.prove(f"aug.copy{a}.output-is-the-augmented-feature", AND(*[out["locs"].at(a * B + b, n_, c_) == o_.at(a * B + b, n_, c_) for n_ in (i, j) for c_ in (0, 1)]), assume=True)
+        for a in range(K):
+            # ground instance of the augmentation function's contract at the row / nodes the clause speaks about
+            u.ctx.assume(sqdist(o_, a * zint(Bn_) + b, i, j) == sqdist(src_, b, i, j))
             u.prove(f"aug.copy{a}-of-same-instance", sqdist(out["locs"], a * B + b, i, j) == sqdist(td["locs"], b, i, j))
             # features that are not augmented are replicated: row a*B+b carries instance b
             u.prove(f"aug.copy{a}.other-keys-replicated", out["demand"].at(a * B + b, i) == td["demand"].at(b, i))
